@@ -2,16 +2,21 @@ package server
 
 import (
 	"bytes"
+	"context"
 	"encoding/json"
 	"net/http"
+	"net/url"
+	"time"
 	"strconv"
 	"strings"
 
+	"github.com/gorilla/mux"
 	"github.com/ipfs/boxo/internal/verifrt"
 	"github.com/ipfs/boxo/routing/http/filters"
 	"github.com/ipfs/boxo/routing/http/types"
 	"github.com/ipfs/boxo/routing/http/types/iter"
 	jsontypes "github.com/ipfs/boxo/routing/http/types/json"
+	"github.com/ipfs/go-cid"
 	"github.com/ipfs/boxo/routing/http/types/ndjson"
 	"github.com/libp2p/go-libp2p/core/peer"
 	"github.com/multiformats/go-multiaddr"
@@ -510,3 +515,104 @@ func HarnessC42ParseFilter() {
 	verifrt.Assert("C42.parse-terms", zzvStrsEq(got, want))
 	verifrt.Reach("end")
 }
+
+// ---- handler level: Accept header -> pipeline and limit, query -> filters, delegate called unbounded ---------
+
+type zzvRouter struct {
+	ContentRouter
+	provs      []iter.Result[types.Record]
+	peers      []iter.Result[*types.PeerRecord]
+	limitsSeen []int
+}
+
+func (r *zzvRouter) FindProviders(ctx context.Context, c cid.Cid, limit int) (iter.ResultIter[types.Record], error) {
+	r.limitsSeen = append(r.limitsSeen, limit)
+	return iter.FromSlice(r.provs), nil
+}
+
+func (r *zzvRouter) FindPeers(ctx context.Context, pid peer.ID, limit int) (iter.ResultIter[*types.PeerRecord], error) {
+	r.limitsSeen = append(r.limitsSeen, limit)
+	return iter.FromSlice(r.peers), nil
+}
+
+// HarnessC42Handler drives server.findProviders / server.findPeers with a request value: the Accept header
+// selects JSON or NDJSON and with it the configured limit (records vs. streaming), the query parameters carry
+// the filters, and the delegate must be asked for an unbounded stream (the cap is applied after filtering).
+func HarnessC42Handler() {
+	zzvReset()
+	N := verifrt.Param("N", 2)
+	peers := verifrt.NondetRange("peers", 0, 1) == 1
+	accept := verifrt.NondetRange("accept", 0, 3)
+	n := verifrt.NondetRange("n", 0, N)
+	recs := make([]zzvRec, n)
+	for i := range recs {
+		recs[i] = zzvRecord(i, 1, 0, false, 1, true)
+	}
+	rl := verifrt.NondetInt("recordsLimit")
+	sl := verifrt.NondetInt("streamingLimit")
+	verifrt.Assume(rl >= 0)
+	verifrt.Assume(rl <= N+1)
+	verifrt.Assume(sl >= 0)
+	verifrt.Assume(sl <= N+1)
+	rt := &zzvRouter{}
+	for _, r := range recs {
+		rec := zzvMakeRecord(r, false)
+		rt.provs = append(rt.provs, iter.Result[types.Record]{Val: rec})
+		rt.peers = append(rt.peers, iter.Result[*types.PeerRecord]{Val: rec.(*types.PeerRecord)})
+	}
+	s := &server{svc: rt, recordsLimit: rl, streamingRecordsLimit: sl, routingTimeout: time.Minute}
+	hdr := http.Header{}
+	ndjsonMode := false
+	switch accept {
+	case 1:
+		hdr.Set("Accept", "application/json")
+	case 2:
+		hdr.Set("Accept", "application/x-ndjson")
+		ndjsonMode = true
+	case 3:
+		hdr.Set("Accept", "application/json, application/x-ndjson")
+		ndjsonMode = true
+	}
+	req := &http.Request{Method: http.MethodGet, Header: hdr, URL: &url.URL{Path: "/routing/v1/x", RawQuery: "filter-protocols=A,unknown"}}
+	fProtos := []string{"a", "unknown"} // the query above, parsed and lower-cased
+	w := &zzvRW{}
+	if peers {
+		req = mux.SetURLVars(req, map[string]string{"peer-id": "12D3KooWD3eckifWpRn9wQpMG9R9hX3sD158z7EqHWmweQAJU5SA"})
+		s.findPeers(w, req)
+	} else {
+		req = mux.SetURLVars(req, map[string]string{"cid": "bafkqaaa"})
+		s.findProviders(w, req)
+	}
+	verifrt.Assert("C42.delegate-called-once", len(rt.limitsSeen) == 1)
+	verifrt.Assert("C42.delegate-called-unbounded", len(rt.limitsSeen) == 1 && rt.limitsSeen[0] == 0)
+	var want []zzvOut
+	for _, r := range recs {
+		if o, ok := zzvReference(r, nil, fProtos); ok {
+			want = append(want, o)
+		}
+	}
+	limit := rl
+	if ndjsonMode {
+		limit = sl
+	}
+	if limit > 0 && len(want) > limit {
+		want = want[:limit]
+	}
+	if !verifrt.Symbolic() {
+		verifrt.Assert("C42.handler-status-200", w.status == http.StatusOK)
+	}
+	got := zzvCollect(w, ndjsonMode, peers)
+	verifrt.Observe("got", len(got))
+	verifrt.Assert("C42.handler-record-count", len(got) == len(want))
+	if len(got) == len(want) {
+		for i := range got {
+			verifrt.Assert("C42.handler-record-order-and-identity", got[i].id == want[i].id)
+			verifrt.Assert("C42.handler-record-protocols", zzvStrsEq(got[i].protos, want[i].protos))
+		}
+	}
+	verifrt.Reach("end")
+}
+
+// HarnessC42OneRecordProtocols: the same single-record check with the bounds spent on the protocol dimension
+// (separate entry so that the two dimensions can be deepened independently).
+func HarnessC42OneRecordProtocols() { HarnessC42OneRecord() }
